@@ -129,6 +129,111 @@ class ClassInfo:
 
 
 
+def _binding_annotation(outer: ast.AST, name: str, stores: List[ast.AST], rest: List[ast.AST]) -> Optional[ast.expr]:
+    """the annotation a lifted closure's parameter gets: that of the enclosing function's parameter / annotated
+    assignment it stands for, or the container type evident from the display it is assigned (``(*(aiter(x) for ..),)``
+    is a tuple of async iterators)"""
+    import copy as _copy
+    oa = outer.args          # type: ignore[attr-defined]
+    for p in list(oa.posonlyargs) + list(oa.args) + list(oa.kwonlyargs):
+        if p.arg == name:
+            return _copy.deepcopy(p.annotation)
+    if len(stores) != 1:
+        return None
+    for st in rest:
+        if isinstance(st, ast.AnnAssign) and st.target is stores[0]:
+            return _copy.deepcopy(st.annotation)
+        if isinstance(st, ast.Assign) and len(st.targets) == 1 and st.targets[0] is stores[0]:
+            v = st.value
+            head = {ast.Tuple: "Tuple", ast.List: "List", ast.ListComp: "List"}.get(type(v))
+            if head is None:
+                return None
+            elts = [v.elt] if isinstance(v, ast.ListComp) else list(v.elts)          # type: ignore[attr-defined]
+            elts = [e.value if isinstance(e, ast.Starred) else e for e in elts]
+            elts = [e.elt if isinstance(e, (ast.GeneratorExp, ast.ListComp)) else e for e in elts]
+            iters = bool(elts) and all(isinstance(e, ast.Call) and isinstance(e.func, ast.Name) and e.func.id == "aiter" for e in elts)
+            text = f"{head}[AsyncIterator[Any], ...]" if iters and head == "Tuple" else \
+                f"{head}[AsyncIterator[Any]]" if iters else f"{head}[Any, ...]" if head == "Tuple" else f"{head}[Any]"
+            return ast.copy_location(ast.parse(text, mode="eval").body, st)
+    return None
+
+
+def _lift_generator_closures(tree: ast.Module) -> None:
+    """Normalisation at load time: a *generator* defined inside a module-level function that takes no arguments and
+    reads variables of the enclosing function is a private helper written as a closure.  The rule tables know such
+    helpers as module-level generators with parameters (``_zip_inner(aiters)``), so the closure is lambda-lifted:
+    it moves to module level as ``_<outer>__<name>(free variables)`` and each call ``name()`` becomes
+    ``_<outer>__<name>(free variables)``.  Only done where that is evidently the same program: the closure has no
+    parameters, decorators, ``nonlocal`` / ``global`` declarations and does not refer to itself; its name is used in the
+    enclosing function in call position only; every free variable is a parameter or is bound exactly once in the
+    enclosing function, textually before the closure, is never deleted there and is not bound inside the closure -
+    so the value the closure reads while it runs is the value at the time of the call."""
+    new_body: List[ast.stmt] = []
+    for outer in tree.body:
+        new_body.append(outer)
+        if not isinstance(outer, (ast.FunctionDef, ast.AsyncFunctionDef)):
+            continue
+        for inner in [n for n in outer.body if isinstance(n, (ast.FunctionDef, ast.AsyncFunctionDef))]:
+            a = inner.args
+            if inner.decorator_list or a.args or a.posonlyargs or a.kwonlyargs or a.vararg or a.kwarg:
+                continue
+            inside = [x for st in inner.body for x in ast.walk(st)]
+            if not any(isinstance(x, (ast.Yield, ast.YieldFrom)) for x in inside):
+                continue
+            if any(isinstance(x, (ast.Nonlocal, ast.Global, ast.FunctionDef, ast.AsyncFunctionDef, ast.Lambda, ast.ClassDef))
+                   for x in inside):
+                continue
+            if any(isinstance(x, ast.Name) and x.id == inner.name for x in inside):
+                continue
+            inner_ids = {id(x) for x in ast.walk(inner)}
+            rest = [x for x in ast.walk(outer) if id(x) not in inner_ids and x is not outer]
+            uses = [x for x in rest if isinstance(x, ast.Name) and x.id == inner.name]
+            calls = [x for x in rest if isinstance(x, ast.Call) and isinstance(x.func, ast.Name) and x.func.id == inner.name
+                     and not x.args and not x.keywords]
+            if not calls or len(uses) != len(calls) or any(isinstance(x.ctx, ast.Store) for x in uses):
+                continue
+            if any(isinstance(x, ast.Nonlocal) for x in rest):
+                continue          # another closure might rebind a variable: keep it simple
+            bound_inner = {x.id for x in inside if isinstance(x, ast.Name) and isinstance(x.ctx, (ast.Store, ast.Del))}
+            loaded = []
+            for x in inside:
+                if isinstance(x, ast.Name) and isinstance(x.ctx, ast.Load) and x.id not in loaded:
+                    loaded.append(x.id)
+            oa = outer.args
+            params = [p.arg for p in list(oa.posonlyargs) + list(oa.args) + list(oa.kwonlyargs)]
+            params += [p.arg for p in (oa.vararg, oa.kwarg) if p is not None]
+            stores: Dict[str, List[ast.Name]] = {}
+            for x in rest:
+                if isinstance(x, ast.Name) and isinstance(x.ctx, (ast.Store, ast.Del)):
+                    stores.setdefault(x.id, []).append(x)
+                elif isinstance(x, ast.ExceptHandler) and x.name:
+                    stores.setdefault(x.name, []).append(x)          # type: ignore[arg-type]
+            free = [n for n in loaded if n not in bound_inner and (n in params or n in stores)]
+            ok = True
+            for n in free:
+                ss = stores.get(n, [])
+                if n in params:
+                    ok = ok and not ss
+                else:
+                    ok = ok and len(ss) == 1 and isinstance(ss[0], ast.Name) and isinstance(ss[0].ctx, ast.Store) \
+                        and ss[0].lineno < inner.lineno
+            if not ok or not free:
+                continue
+            lifted_name = f"_{outer.name.lstrip('_')}__{inner.name.lstrip('_')}"
+            if any(isinstance(n, (ast.FunctionDef, ast.AsyncFunctionDef, ast.ClassDef)) and n.name == lifted_name for n in tree.body):
+                continue
+            outer.body.remove(inner)
+            inner.name = lifted_name
+            inner.args.args = [ast.copy_location(ast.arg(arg=n, annotation=_binding_annotation(outer, n, stores.get(n, []), rest)),
+                                                 inner) for n in free]
+            for c in calls:
+                c.func.id = lifted_name          # type: ignore[attr-defined]
+                c.args = [ast.copy_location(ast.Name(id=n, ctx=ast.Load()), c) for n in free]
+            new_body.append(inner)
+    tree.body[:] = new_body
+    ast.fix_missing_locations(tree)
+
+
 def _split_mode_helpers(tree: ast.Module) -> None:
     """Normalisation at load time: a private module-level generator that takes a *mode flag* - a parameter annotated
     ``bool`` that it only ever truth-tests - and has one call site passing a non-constant flag is two helpers merged into one.  The rule tables know
@@ -341,6 +446,7 @@ class Module:
         except SyntaxError as exc:
             raise AnalysisError(f"cannot parse {relpath}: {exc}") from None
         self.digest = hashlib.sha256(self.source.encode()).hexdigest()[:16]
+        _lift_generator_closures(self.tree)
         _split_mode_helpers(self.tree)
         # name -> ('import', module, name) | ('def', node) | ('class', node) | ('assign', value)
         self.symbols: Dict[str, Tuple[Any, ...]] = {}
